@@ -40,6 +40,7 @@ def check_case(rep, case, name):
             f = build(line); f0, _, _ = exact(t); api = to_api(t)
         except Exception as e: rep.dev(name, case, 'exception %r (%s)' % (e, v), 'a potential'); return
         for x in case['rs']:
+            if x < min_r(t) + (t[2] if t[0] == 'trans' else 0): continue
             if case.get('ranges') and x > case['ranges'][0]:
                 a, b = case['ranges']; want = 0.5 if x < b else 1.0 + 0.25 * x
             else:
